@@ -265,7 +265,7 @@ CHECKS["C15"] = {
             "thread with unrelated thread_rng draws in between, (b) by 8 concurrent threads walking the seeds in different orders "
             "while signing with other keys in between, (c) by two child processes started with different environment (TZ, LANG, "
             "environment size), (d) for a few seeds: both variants from the SAME seed back to back in one thread versus fresh "
-            "threads - all fingerprints of a seed must be identical. Bit flips: for a base seed (randomly chosen ones in the bitflips leg, and the pool seeds with the LONGEST key searches in the determinism leg: 1 quick, 6 + 2 thorough), the 257 keys of the seed "
+            "threads - all fingerprints of a seed must be identical. Bit flips: for a base seed (randomly chosen ones in the bitflips leg, and the pool seeds with the LONGEST key searches in the determinism leg, ranked by the hook's candidate counter: 1 quick, 12 + 6 thorough), the 257 keys of the seed "
             "and its 256 single-bit neighbours must be pairwise distinct in both secret and public key (one Falcon-512 neighbourhood "
             "quick; 5 Falcon-512 + 1 Falcon-1024 thorough). distinct_nontrivial = seeds with a multi-context history + bit-flip "
             "neighbours generated.",
